@@ -88,7 +88,7 @@ XIsSpectrum(A, mus) ==
 \* s: a sequence of pairs <<key, tag>>.  Ge(a, b): the order of the keys.
 XIsDesc(s, Ge(_, _)) == \A i \in 1..(Len(s) - 1) : Ge(s[i][1], s[i + 1][1])
 XIsPermOf(out, in) == Len(out) = Len(in) /\ \E k \in 1..Len(LAPermTable[Len(in)]) : \A i \in 1..Len(in) : out[i] = in[LAPermTable[Len(in)][k][i]]
-XIsSortOf(out, in, Ge(_, _)) == XIsPermOf(out, in) /\ XIsDesc(out, Ge)
+XIsSortOf(out0, in0, Ge(_, _)) == \A v \in {<<out0, in0>>} : XIsPermOf(v[1], v[2]) /\ XIsDesc(v[1], Ge)
 \* a reference algorithm (used by MC_X10 only): compare-exchange networks; a pair is exchanged when the first key is strictly smaller
 XNet == << << >>, << <<1, 2>> >>, << <<1, 2>>, <<1, 3>>, <<2, 3>> >>, << <<1, 3>>, <<2, 4>>, <<1, 2>>, <<3, 4>>, <<2, 3>> >> >>
 XCmpSwap(s, ij, Ge(_, _)) == IF ~Ge(s[ij[1]][1], s[ij[2]][1]) THEN [s EXCEPT ![ij[1]] = s[ij[2]], ![ij[2]] = s[ij[1]]] ELSE s
@@ -142,18 +142,20 @@ XCovIntMode(f, pts, c, D, B) ==
     /\ XdAllInt(c) /\ \A j \in 1..Len(pts) : XdAllInt(pts[j])
     /\ \A k \in 1..(D * D) : DLe(B[k], DPow2(f.mb + 1))
     /\ \A j \in 1..Len(pts) : \A i \in 1..D : DLe(DAbs(pts[j][i]), DPow2(f.mb)) /\ DLe(DAbs(c[i]), DPow2(f.mb))
-XCovOk(f, D, pts, c, r) ==
+XCovOk(f, D, pts0, c0, r0) ==
+    LALet3(pts0, c0, r0, LAMBDA pts, c, r :
     LALet1(LAForceSeq([j \in 1..Len(pts) |-> LAForceSeq([i \in 1..D |-> DSub(pts[j][i], c[i])])]), LAMBDA dv :
     LALet2(LAForceSeq([k \in 1..(D * D) |-> DSum([j \in 1..Len(dv) |-> DMul(dv[j][((k - 1) \div D) + 1], dv[j][((k - 1) % D) + 1])])]),
            LAForceSeq([k \in 1..(D * D) |-> DSum([j \in 1..Len(dv) |-> DAbs(DMul(dv[j][((k - 1) \div D) + 1], dv[j][((k - 1) % D) + 1]))])]), LAMBDA S, B :
       LET n == Len(pts)
           kk == IF XCovIntMode(f, pts, c, D, B) THEN 2 ELSE n + 3
-      IN Len(r) = D * D /\ \A k \in 1..(D * D) : DLe(DAbs(DSub(DMulInt(r[k], n), S[k])), XTol(kk, B[k], f))))
+      IN Len(r) = D * D /\ \A k \in 1..(D * D) : DLe(DAbs(DSub(DMulInt(r[k], n), S[k])), XTol(kk, B[k], f)))))
 
 \* ---------------------------------------------------------------- findEigenvaluesSymReal
 \* A: observed input (n*n dyadics, column-major, exactly symmetric), lam: the n returned values, V: the returned matrix
 \* (column i = eigenvector of lam[i]).  The measures are formed once; they are compared with tolerances below.
-XEigMeasures(n, A, lam, Vraw, mus) ==
+XEigMeasures(n, A0, lam0, Vraw, mus0) ==
+    LALet3(A0, lam0, mus0, LAMBDA A, lam, mus :
     LALet2(XdFlush(Vraw), XdNormInf(A, n), LAMBDA V, N :
     LALet1(LAForceSeq([i \in 1..n |-> XdCol(V, n, i)]), LAMBDA cols :
     LALet1(LAForceSeq([i \in 1..n |-> LAForceSeq([j \in 1..n |-> IF j < i THEN DZero ELSE XdDot(cols[i], cols[j])])]), LAMBDA G :       \* Gram matrix, upper part
@@ -168,11 +170,13 @@ XEigMeasures(n, A, lam, Vraw, mus) ==
                                                              IN IF i < j THEN DMul(G[i][j], DSub(lam[i], lam[j])) ELSE DZero])),
         tr |-> DAbs(DSub(DSum(lam), XdTrace(A, n))),
         det |-> DAbs(DSub(XdProd(lam), XdDet(A, n))),
-        \* max_i | det(A - lam_i I) |  = prod_j | mu_j - lam_i |
-        cp |-> DMaxAbs(LAForceSeq([i \in 1..n |-> XdDet(XdShiftI(A, n, lam[i]), n)])),
+        Am |-> A,
         maxlam |-> DMaxAbs(lam),
         \* known spectrum (mus # << >>): min over the pairings of max_i | lam_i - mu_p(i) |, as the set of pairings within a bound
-        lamv |-> lam, mus |-> mus ])))
+        lamv |-> lam, mus |-> mus ]))))
+\* max_i | det(A - lam_i I) |  = prod_j | mu_j - lam_i |  ("every returned value is an eigenvalue"; implied by residual + unit,
+\* hence only formed where the residual is not demanded)
+XEigCp(n, m) == DMaxAbs(LAForceSeq([i \in 1..n |-> XdDet(XdShiftI(m.Am, n, m.lamv[i]), n)]))
 \* is there a pairing of the returned values with the known spectrum within delta?
 XSpecWithin(m, n, delta) ==
     Len(m.mus) = 0 \/ \E k \in 1..Len(LAPermTable[n]) : \A i \in 1..n : DLe(DAbs(DSub(m.lamv[i], m.mus[LAPermTable[n][k][i]])), delta)
@@ -180,14 +184,13 @@ XSpecWithin(m, n, delta) ==
 XK(n) == 16 * n            \* residual / orthonormality constant: the LAPACK-style ratio  measure / (n eps |A|) <= 16
 \* tau: the residual tolerance (strict: XK(n) eps |A|_inf; the pinned deviations add an absolute term)
 \*   res <= tau; unit <= XK eps; orthGap <= 2 tau; tr <= n tau0; eigenvalue error delta = 3 tau (|lam - mu| <= |r|_2 / |v|_2 <= sqrt(n) tau / (1 - XK eps));
-\*   | det(A - lam_i I) | <= delta (2N + delta)^(n-1);  | prod lam - det A | <= n delta (N + delta)^(n-1)
+\*   | prod lam - det A | <= n delta (N + delta)^(n-1);  (frame parts only)  | det(A - lam_i I) | <= delta (2N + delta)^(n-1)
 XEigParts(f, n, m, tau, tau0) ==
     LALet3(DMulInt(tau, 3), XMg(m.N), DAdd(XTol(XK(n), XDOne, f), DPow2(-150)), LAMBDA delta, mg, tolU :
       << <<"residual", DLe(m.res, DAdd(tau, mg))>>,
          <<"unit", DLe(m.unit, tolU)>>,
          <<"orthogonal", DLe(m.orthGap, DAdd(DMulInt(tau, 2), mg))>>,
          <<"trace", DLe(m.tr, DMulInt(tau0, n))>>,
-         <<"charpoly", DLe(m.cp, DMul(delta, XdPowN(DAdd(DMulInt(m.N, 2), delta), n - 1)))>>,
          <<"determinant", DLe(m.det, DMul(DMulInt(delta, n), XdPowN(DAdd(m.N, delta), n - 1)))>>,
          <<"spectrum", XSpecWithin(m, n, delta)>> >>)
 \* the parts that survive the false-underflow deviation: an orthonormal frame, the right values, the trace
@@ -196,9 +199,9 @@ XEigFrameParts(f, n, m, tau, tau0) ==
       << <<"unit", DLe(m.unit, tolU)>>,
          <<"orthonormal", DLe(m.orth, tolU)>>,
          <<"trace", DLe(m.tr, DMulInt(tau0, n))>>,
-         <<"charpoly", DLe(m.cp, DMul(delta, XdPowN(DAdd(DMulInt(m.N, 2), delta), n - 1)))>>,
          <<"determinant", DLe(m.det, DMul(DMulInt(delta, n), XdPowN(DAdd(m.N, delta), n - 1)))>>,
-         <<"spectrum", XSpecWithin(m, n, delta)>> >>)
+         <<"spectrum", XSpecWithin(m, n, delta)>>,
+         <<"charpoly", DLe(XEigCp(n, m), DMul(delta, XdPowN(DAdd(DMulInt(m.N, 2), delta), n - 1)))>> >>)
 XAllParts(p) == \A i \in 1..Len(p) : p[i][2]
 XFirstBad(p) == LET bad == {i \in 1..Len(p) : ~p[i][2]} IN IF bad = {} THEN "" ELSE p[CHOOSE i \in bad : \A j \in bad : i <= j][1]
 
@@ -219,6 +222,6 @@ XEigJudge(f, n, A, lam, V, mus) ==
       ELSE IF XAllParts(XEigFrameParts(f, n, m, DAdd(tau0, XAbsEps), tau0)) THEN "kd-underflow"
       ELSE "bad:" \o XFirstBad(strict))))
 \* the claim "the spectrum of A is mus" (an input encoding of the harness for the matrices generated by MC_X10), verified exactly
-XdIsSpectrum(A, n, mus, unitx) ==
-    \A x \in 0..(n - 1) : \A y \in {DMulInt(unitx, x)} : DEq(XdDet(XdShiftI(A, n, y), n), XdProd([i \in 1..n |-> DSub(mus[i], y)]))
+XdIsSpectrum(A0, n, mus0, unitx) ==
+    \A A \in {A0} : \A mus \in {mus0} : \A x \in 0..(n - 1) : \A y \in {DMulInt(unitx, x)} : DEq(XdDet(XdShiftI(A, n, y), n), XdProd([i \in 1..n |-> DSub(mus[i], y)]))
 =============================================================================
